@@ -27,6 +27,7 @@ from ..wsgi import make_environ, call_app
 from ..sched import Sched, gen_plan, simpler_plans
 from .. import shrink
 from ..apps import echo
+from .. import pristine
 
 PROP = 'C08'
 LEVEL = 'exploration'
@@ -59,7 +60,7 @@ ASSUMPTIONS = [
 
 PREFIXES = (REPO.rstrip('/') + '/ombott/', echo.__file__.rsplit('/', 1)[0] + '/')
 KINDS = ['echo_get', 'echo_post', 'echo_head', 'upload', 'raise_err', 'raise_resp', 'teapot', 'crash', 'gen',
-         'notfound', 'notallowed', 'json404', 'badchunk', 'chunked_ok', 'big', 'badpath', 'echo_put', 'hookcrash', 'badchunk_json', 'badjson', 'goodjson']
+         'notfound', 'notallowed', 'json404', 'badchunk', 'chunked_ok', 'big', 'badpath', 'echo_put', 'hookcrash', 'badchunk_json', 'badjson', 'goodjson', 'badchunk_sizeline', 'busy_str', 'limit_num']
 _MARK = re.compile(r'Z\d+z')
 
 
@@ -136,6 +137,15 @@ def environ_of(spec):
         method, path = 'POST', '/json/' + m
         body = ('{"m": "%s"' % m).encode() + (b'}' if kind == 'goodjson' else b', ]')
         kw = {'content_length': len(body), 'content_type': 'application/json'}
+    elif kind == 'badchunk_sizeline':
+        # the stream ends inside a chunk-size line, after a digit
+        method, path = 'POST', '/body/' + m
+        body = b'3\r\n' + m.encode()[:3] + b'\r\n1'
+        kw = {'chunked': True}
+    elif kind == 'busy_str':
+        path = '/busy/' + m
+    elif kind == 'limit_num':
+        path = '/limit/' + m
     elif kind == 'hookcrash':
         path = '/echo/' + m
     else:
@@ -214,7 +224,10 @@ def served_alone(spec, cfg, gran):
         s.run([lambda: serve(app, spec, out)])
         if s.errors[0] is not None:
             raise HarnessError(f'served-alone run raised {type(s.errors[0]).__name__}: {s.errors[0]}')
-        got = (canon_resp(out.resp), out.notes, s.step)
+        ref = restart_reference(spec, cfg)
+        if ref is None:
+            ref = (canon_resp(out.resp), out.notes, 0)
+        got = (ref[0], ref[1], s.step)
         if len(_ALONE) > 3000:
             _ALONE.clear()
         _ALONE[k] = got
@@ -224,36 +237,63 @@ def served_alone(spec, cfg, gran):
 _PLAIN = {}
 
 
-def restart_reference(spec, cfg):
-    """The same spec on a fresh application in a fresh, untraced thread (used by C09)."""
+def plain_reference(spec, cfg):
+    """Executed inside a pristine child process (sim.pristine): the spec on a fresh application in a fresh
+    thread of a process that has never served anything."""
     import threading
+    app = new_app(cfg)
+    out = Outcome()
+    err = []
+
+    def body():
+        try:
+            serve(app, spec, out)
+        except BaseException as e:   # noqa
+            err.append(repr(e))
+    t = threading.Thread(target=body)
+    t.start()
+    t.join(25)
+    if err or t.is_alive():
+        raise RuntimeError(f'reference request failed: {err or "still running"}')
+    return canon_resp(out.resp), out.notes
+
+
+def restart_reference(spec, cfg):
+    """The same spec after a *restart*: fresh process state, fresh application, fresh thread.  Cached per
+    (spec, config): a pure function of its key.  Returns None when the reference itself never answers."""
     k = digest([spec, cfg])
     got = _PLAIN.get(k)
     if got is None:
-        app = new_app(cfg)
-        out = Outcome()
-        err = []
-
-        def body():
-            try:
-                serve(app, spec, out)
-            except BaseException as e:   # noqa
-                err.append(e)
-        t = threading.Thread(target=body)
-        t.start()
-        t.join(60)
-        if err or t.is_alive():
-            raise HarnessError(f'restart reference failed: {err}')
-        got = (canon_resp(out.resp), out.notes, 0)
+        status, val = pristine.call('sim.props.c08', 'plain_reference', spec, cfg)
+        if status == 'timeout':
+            return None
+        if status != 'ok':
+            raise HarnessError(f'pristine reference failed: {val}')
+        got = (val[0], val[1], 0)
         if len(_PLAIN) > 20000:
             _PLAIN.clear()
         _PLAIN[k] = got
     return got
 
 
+_FLUSH = ['chunked_ok', 'echo_post', 'upload', 'goodjson', 'notfound']
+
+
+def flush_process_state():
+    """Serve a fixed sequence of well-formed requests on a scratch application before a run: whatever an
+    earlier run of this process may have left in process-wide scratch state of the system under test is
+    overwritten, so that what a run observes is caused by the run itself and replays from its own trace."""
+    app = new_app({'debug': False, 'B': 102400})
+    for i, kind in enumerate(_FLUSH):
+        sp = {'kind': kind, 'm': 'Z0z', 'status': 200}
+        echo.begin(sp)
+        call_app(app, environ_of(sp))
+
+
 def setup_worker():
     """Warm regime: every lazy process-global cache reaches its steady state
     before the first scheduled run."""
+    pristine.start()        # before this process serves anything
     rng = random.Random(1)
     for gran in ('line',):
         for kind in KINDS:
@@ -329,6 +369,7 @@ def run_case(case):
         from ombott import error_render
         saved_tpl = list(error_render._html_lns)
         del error_render._html_lns[:]
+    flush_process_state()
     app = new_app(cfg)
     outs = [[Outcome() for _ in lst] for lst in lists]
     inflight = set()
